@@ -47,3 +47,12 @@ Definition model11r (c : Z * Z * list (list N)) : list (list N) :=
   [render_quad a; render4 F_cidr a p; render4 F_cidr (netw 32 o) p; render_quad (netmask 32 o); render_quad (hostmask 32 o);
    render_quad (lastaddr 32 o)].
 Definition agree11r (c : Z * Z * list (list N)) : bool := list_eqb str_eqb (snd c) (model11r c).
+
+(* string renderings, IPv6: (a, p, [str(ip); as_cidr_addr; as_cidr_net; str(netmask); str(hostmask)]) against Model/IPRender6.v,
+   for which Proofs/IPRender6Proofs.v proves that the rendering re-parses to the same value *)
+Require Import CCP.Model.IPRender6.
+Definition model11r6 (c : Z * Z * list (list N)) : list (list N) :=
+  let '(a, p, _) := c in
+  let o := {| addr := a; plen := p |} in
+  [render6 a; render6_cidr a p; render6_cidr (netw 128 o) p; render6 (netmask 128 o); render6 (hostmask 128 o)].
+Definition agree11r6 (c : Z * Z * list (list N)) : bool := list_eqb str_eqb (snd c) (model11r6 c).
